@@ -255,6 +255,13 @@ func hcGenC07(rng *sim.Rand, tier string) interface{} {
 					}
 					ex.RChunked = false
 				}
+				if rng.Bool(0.08) && ex.BodyLen > 1 && ex.FailFirst == 0 {
+					ex.ReqShort = rng.Pick(1, 2, ex.BodyLen/2, ex.BodyLen)
+					if ex.Chunked {
+						ex.ReqShort = rng.Pick(1, 5, 6, 7+ex.BodyLen/2) // 5 = exactly the terminator "0\r\n\r\n"
+					}
+					ex.NewConn = true
+				}
 				cl.Ex = append(cl.Ex, ex)
 			}
 			out = append(out, cl)
@@ -400,6 +407,9 @@ func hcValid(sc *hcScenario) bool {
 					}
 				}
 				if ex.RGzipBad != 0 && (!ex.RGzip || ex.RBodyLen < 100 || ex.RGzipBad > 2 || ex.RGzipBad < 0) {
+					return false
+				}
+				if ex.ReqShort < 0 || (ex.ReqShort > 0 && (ex.BodyLen <= 1 || sc.Prop != "C07")) {
 					return false
 				}
 				if ex.Method == "HEAD" && (ex.RReset || ex.RShort > 0) {
@@ -790,6 +800,29 @@ func (c *hcChain) checkC07(id string, ex *hcExchange, res *hcResp) {
 		return
 	}
 	plain := hcBody("q"+id, ex.BodyLen, ex.Inc)
+	if ex.ReqShort > 0 {
+		// The client promised more body bytes than it sent and then ended its side.
+		// Whatever the proxy does with such a request, the backend must never be
+		// handed the fragment as if it were the complete body ("passes intact").
+		r.Probe("c07.request_body_shorter_than_framed")
+		if !ex.Chunked && reqLim >= 0 && int64(ex.BodyLen) > reqLim {
+			r.Probe("c07.short_request_declared_over_limit")
+			if res.status != 413 {
+				r.Violate("C07.req.over-limit-not-413", "%s: declared request body %d > limit %d (client sent %d bytes fewer and half-closed) but client got status %d (ioerr %v)\n%s", id, ex.BodyLen, reqLim, ex.ReqShort, res.status, res.ioErr, desc)
+			}
+			if seen != nil && seen.count > 0 {
+				r.Violate("C07.req.over-limit-forwarded", "%s: declared request body %d > limit %d but the backend saw the request\n%s", id, ex.BodyLen, reqLim, desc)
+			}
+			return
+		}
+		if seen != nil && seen.count > 0 && seen.bodyErr == nil && len(seen.body) < ex.BodyLen {
+			r.Violate("C07.req.truncated-body-forwarded-as-complete", "%s: the client framed %d body bytes, sent %d fewer and half-closed; the backend read a cleanly ended body of %d bytes\n%s", id, ex.BodyLen, ex.ReqShort, len(seen.body), desc)
+		}
+		if seen != nil && seen.count > 0 {
+			r.Probe("c07.short_request_reached_backend")
+		}
+		return
+	}
 	if c.gen > 0 {
 		r.Probe("c07.exchange_after_hot_update")
 		if c.sc.CacheSize > 0 {
@@ -912,6 +945,6 @@ func TestVerifC07(t *testing.T) {
 		Rule: "scenario = clientMaxBodySize at server/path level and serverMaxBodySize at proxy/pool level drawn from {0,-1,1,10,100,1000,4096}, route cache sizes {0,1,2,50}, one or two path rules (path-level limit on /up only), optionally a hot update of all four limits between two rounds of exchanges (new Pipeline generation inherits, mux reloads; second round also sits around the old limits) + exchanges whose request and response body sizes sit on and around the effective limits (declared or chunked; backend declaring more than it sends), per-direction segmentation/latency; " +
 			"non-trivial = at least 2 exchanges; distinct = distinct schedule traces",
 		Real: hcReal, Stub: hcStub,
-		Assumptions: []string{"request bodies that lie about their own length are not generated (the statement speaks of short *backend* bodies)", "the 4 MiB default limit is exercised only in the thorough tier (2% of runs)"},
+		Assumptions: []string{"a request body shorter than its own framing (declared length or chunk stream) is generated; longer than declared is not (the surplus is the next pipelined request by definition)", "the 4 MiB default limit is exercised only in the thorough tier (2% of runs)"},
 	})
 }
